@@ -157,6 +157,15 @@ pub struct Hist {
     pub last_swap: Option<(usize, bool, u64, u64)>,
 }
 
+/// per-pool context of a `Hist` (swapped in and out when a world holds two pools)
+pub struct PoolCtx {
+    pub pool: usize,
+    pub spec: WorldSpec,
+    pub array_starts: Vec<i32>,
+    pub base_unit: i32,
+    pub last_swap: Option<(usize, bool, u64, u64)>,
+}
+
 pub fn start_sqrt_price(spec: &WorldSpec) -> u128 {
     let t = spec.start_tick.clamp(MIN_TICK, MAX_TICK);
     let p = sqrt_price_from_tick_index(t) as i128 + spec.start_price_offset as i128;
@@ -232,6 +241,46 @@ impl Hist {
         let ts = spec.tick_spacing as i32;
         let base_unit = floor_div(spec.start_tick.clamp(MIN_TICK, MAX_TICK), ts);
         Some(Hist { w, spec: spec.clone(), pool, lps, traders, treasury, array_starts: vec![], base_unit, last_swap: None })
+    }
+
+    /// Add a second pool that shares one mint with the first (the shared mint is pool one's A if `share_a`).
+    /// Users get funded accounts of the new mint.  Returns the context to `switch` to.
+    pub fn add_second_pool(&mut self, spec2: &WorldSpec, share_a: bool) -> Option<PoolCtx> {
+        let cfg = self.w.pools[self.pool].config;
+        let ts = spec2.tick_spacing;
+        if !self.w.bank.accounts.contains_key(&fee_tier_pda(&self.w.configs[cfg].key, ts)) {
+            let ix = self.w.ix_init_fee_tier(cfg, ts, spec2.fee_rate.min(60000));
+            self.w.must("initialize_fee_tier(2)", &ix);
+        }
+        let shared = self.w.mint_of(self.pool, share_a);
+        let newm = if spec2.mint_kind >= 1 { self.w.create_t22_mint(None) } else { self.w.create_spl_mint() };
+        let pool2 = self.w.init_pool(cfg, &shared, &newm, ts, start_sqrt_price(spec2)).ok()?;
+        {
+            let k = self.w.pools[pool2].key;
+            let mut a = self.w.bank.get(&k);
+            a.data[decode::OFF_FEE_GROWTH_GLOBAL_A..decode::OFF_FEE_GROWTH_GLOBAL_A + 16].copy_from_slice(&spec2.growth_a0.to_le_bytes());
+            a.data[decode::OFF_FEE_GROWTH_GLOBAL_B..decode::OFF_FEE_GROWTH_GLOBAL_B + 16].copy_from_slice(&spec2.growth_b0.to_le_bytes());
+            self.w.bank.set(k, a);
+        }
+        // same fee rate override as the spec asks (the tier may pre-exist with another default)
+        let ix = self.w.ix_set_fee_rate(pool2, spec2.fee_rate.min(60000));
+        self.w.must("set_fee_rate(2)", &ix);
+        for u in self.lps.clone().into_iter().chain(self.traders.clone()) {
+            self.w.user_token(u, &newm, LP_FUND);
+        }
+        let t = self.treasury;
+        self.w.user_token(t, &newm, 0);
+        let base_unit = floor_div(spec2.start_tick.clamp(MIN_TICK, MAX_TICK), ts as i32);
+        Some(PoolCtx { pool: pool2, spec: spec2.clone(), array_starts: vec![], base_unit, last_swap: None })
+    }
+
+    /// exchange the active pool context
+    pub fn switch(&mut self, ctx: &mut PoolCtx) {
+        std::mem::swap(&mut self.pool, &mut ctx.pool);
+        std::mem::swap(&mut self.spec, &mut ctx.spec);
+        std::mem::swap(&mut self.array_starts, &mut ctx.array_starts);
+        std::mem::swap(&mut self.base_unit, &mut ctx.base_unit);
+        std::mem::swap(&mut self.last_swap, &mut ctx.last_swap);
     }
 
     pub fn snap(&self) -> Snap {
